@@ -1,432 +1,1085 @@
-"""C06 tensor canonicalisation."""
+"""C06 tensor canonicalisation: decided by abstract evaluation of the constructors and container methods."""
 from __future__ import annotations
 
-import ast
 import itertools
+import re
 
-from ..abseval import Interp, Rec, Sym, Raised, klass
-from ..model import AnalysisError, U, Defs, calls_in, call_name, walk_fn
-from ..pathcond import conditions
-from . import common
-from .skeleton import skeleton
+from ..model import AnalysisError
+from ..symex import Symex, Obj, ClassRef, Func, Raised, _freeze
+from ..terms import T, sym, t_pow, show, args_of, is_num
+from . import skeleton as sk
+from .skeleton import ExprState, EC
 
 EXPLANATION = (
-    "R06a: AntiSymmetricTensor._need_bra_ket_swap evaluated on abstract index tuples "
-    "(3 spaces x 3 spins x numbered names, 1- and 2-index groups): swap(u,l) and swap(l,u) "
-    "are never both true, exactly one is true when the (space,spin,name) keys differ and "
-    "none when they are equal (a strict total order => unique canonical form). R06c: "
-    "AntiSymmetricTensor.__new__ / SymmetricTensor.__new__ interpreted over all scenarios "
-    "(sort parity upper/lower, swap needed, bra-ket symmetry 0/+1/-1, non-Index entries, "
-    "Pauli violation): resulting sign, swap and zero agree with the declared symmetry. "
-    "R06d: KroneckerDelta.eval table over 81 (space,spin)^2 inputs; _eval_power. R06e: "
-    "homomorphism skeleton (Expr=sum over all terms, Term=product over all objects, "
-    "Polynom=Pow(sum, exponent), Obj rebuilds keep the exponent) for make_real, "
-    "_apply_tensor_braket_sym, rename_tensor. R06f: idempotence guards of make_real, "
-    "set_(anti)sym_tensors, add_bra_ket_sym, Obj._apply_tensor_braket_sym.")
+    "Every clause is decided by evaluating the library source abstractly (sa.symex) on small abstract domains and "
+    "comparing the computed value with the behaviour written down in the rule; no clause looks at source text, local "
+    "names or statement layout (helpers a function calls are evaluated through). Indices are abstract records (space, "
+    "spin, name, dummy id), sympy's singletons 0/1/-1 are integers, Add/Mul/Pow are sum/product/power of terms. "
+    "R06a: the bra-ket comparison each tensor class resolves to (_need_bra_ket_swap through the class hierarchy) "
+    "evaluated on 1- and 2-index groups over 3 spaces x 3 spins x numbered names: never a swap in both directions, exactly "
+    "one direction for different (space, spin, number, letter) keys, none for equal keys, unequal group sizes refused. "
+    "R06b (end to end): the constructor each class (AntiSymmetricTensor, Amplitude, SymmetricTensor) resolves to is evaluated "
+    "together with the library's sort key and bra-ket comparison for every index tuple of rank (1,1) and (2,2) (thorough: "
+    "also (2,1) and (3,3)) over an index pool and bra-ket symmetry 0/+1/-1: all orderings related by the declared "
+    "permutational and bra-ket symmetry give the same canonical object with the prescribed relative sign, a repeated "
+    "index in an antisymmetric group gives zero and nothing else does, the canonical upper/lower groups are the given "
+    "groups (exchanged only under a bra-ket symmetry), so unrelated tuples are never identified. R06c: the constructors "
+    "in isolation with the sorting primitive and the comparison modelled (sort parities, swap needed, symmetry 0/+1/-1, "
+    "non-Index entries, Pauli violation, invalid symmetry): sign, exchange, zero; the groups are sorted with the canonical "
+    "key and the comparison is made on the sorted groups. R06d: KroneckerDelta.eval over all (space, spin)^2 inputs "
+    "(zero exactly for two different non-general spaces or two different spins, else canonical argument order, delta(i,i)=1) "
+    "and the _eval_power table. R06e: homomorphism of make_real, _apply_tensor_braket_sym, rename_tensor on all four "
+    "container levels by evaluation: Expr content = sum over all terms, Term = product over all objects, Polynom = "
+    "(sum over all terms) ** exponent with the arguments forwarded and raw values combined, wrappers carry the "
+    "assumptions; Obj level as value tables (t-amplitude names lose the complex-conjugate mark and nothing else changes, "
+    "rename rebuilds the same class with the same index groups and symmetry, rebuilt values keep the exponent). Calls of "
+    "the next lower level are recorded with all arguments bound to parameter names and with the assumptions of the "
+    "owning expression at the time of the call on which the raw value depends (verified by differential evaluation). "
+    "R06f: the Expr assumption state machine (__init__, make_real, set_sym_tensors, set_antisym_tensors) evaluated on "
+    "concrete assumption sets against a reference transition function (real adds fock and eri, the symmetry is applied "
+    "with the complete new declaration after it changed, an already real expression is left untouched, non-string names "
+    "refused), the decision table of Obj._apply_tensor_braket_sym (class x declared names x present symmetry) and of "
+    "AntiSymmetricTensor.add_bra_ket_sym (present x requested symmetry). Contents are compared modulo one law: applying "
+    "the declared symmetry for names S after applying it for a subset of S equals applying it for S.")
 ASSUMPTIONS = [
-    "sympy's _sort_anticommuting_fermions returns the sorted sequence and the number of "
-    "transpositions and raises ViolationOfPauliPrinciple on repeated entries",
+    "sympy's _sort_anticommuting_fermions sorts by the given key, returns the number of transpositions and raises "
+    "ViolationOfPauliPrinciple on two entries with equal keys; sorted() is stable python sorting",
     "orientation (< vs >) of the bra/ket ordering is deliberately not constrained",
-    "value preservation under the declared assumptions is not decided",
+    "value preservation under the declared assumptions is not decided (only that exactly the declared names are "
+    "re-canonicalised with the complete declaration at every level)",
+    "index tuples are explored up to rank (2,2) over a pool of 5-6 abstract indices (thorough: pool of 8, (2,1) and (3,3) samples)",
+    "the diagonal of a bra-ket antisymmetric tensor (upper group == lower group, bra_ket_sym=-1) is mathematically zero; "
+    "the constructor keeps it as an object - not counted as a forced zero here (reported separately)",
+    "bra-ket partners are only required to be identified when the two groups differ in (space, spin, name) of some "
+    "index: for two distinct Index objects with the same name, space and spin (possible because Index is a Dummy) "
+    "the comparison has no preference and d^{i}_{i'} / d^{i'}_{i} stay distinct (reported separately)",
+    "Expr class invariant used by the reference state machine: the content of an Expr already carries the symmetry of "
+    "its current declaration (established by __init__, kept by the in-place operators), `terms` enumerates the summands "
+    "of the current content, Term/Obj read the assumptions of the owning Expr when they are called; because of the "
+    "invariant re-applying an unchanged declaration is not distinguished from not applying it",
+    "whether a content is a plain number is decided once per path for the original content (images of a number under "
+    "the container methods are that number)",
 ]
 
+SO = "sympy_objects"
 SPACES = ["occ", "virt", "general"]
 SPINS = ["", "a", "b"]
+TENSOR_CLASSES = ("AntiSymmetricTensor", "Amplitude", "SymmetricTensor")
+
+_counter = itertools.count(1)
 
 
-def _ix(space, spin, name):
-    return Rec("Index", space=space, spin=spin, name=name, _classes=("Index",))
+def _ix(space, spin, name, dummy=None, tag=""):
+    o = Obj(None, f"{name}{'_' + spin if spin else ''}[{space[0]}]{tag}")
+    o.attrs.update(space=space, spin=spin, name=name, dummy_index=next(_counter) if dummy is None else dummy,
+                   _classes=("Index", "Dummy", "Symbol"))
+    return o
 
 
-def _key(t):
-    def num(n):
-        return (int(n[1:]) if n[1:] else 0, n[0])
-    return ([s.space[0] for s in t], [s.spin for s in t], [num(s.name) for s in t])
+def _name_key(n):
+    return (int(n[1:]) if n[1:] else 0, n[0])
 
+
+def _ikey(s):
+    """Independent statement of the canonical key of one index."""
+    a = s.attrs
+    return (a["space"][0], a["spin"]) + _name_key(a["name"])
+
+
+def _gkey(t):
+    """Key of an index group as the bra-ket comparison sees it: spaces, then spins, then names."""
+    return ([s.attrs["space"][0] for s in t], [s.attrs["spin"] for s in t], [_name_key(s.attrs["name"]) for s in t])
+
+
+# ------------------------------------------------------------------ primitives
+
+def _sort_fermions(sx, a, kw):
+    """Model of sympy's bubble sort of anticommuting operators (see ASSUMPTIONS)."""
+    seq = list(sx.iterate(a[0], None))
+    key = kw.get("key", a[1] if len(a) > 1 else None)
+    if key is None:
+        raise AnalysisError("R06: _sort_anticommuting_fermions without a key")
+    items = [(sx.call_value(key, [x], {}, None), x) for x in seq]
+    n = 0
+    changed = True
+    while changed:
+        changed = False
+        for k in range(len(items) - 1):
+            l, r = items[k][0], items[k + 1][0]
+            if _has_term(l) or _has_term(r):
+                raise AnalysisError("R06: symbolic sort key")
+            if l == r:
+                raise Raised("ViolationOfPauliPrinciple")
+            if l > r:
+                items[k], items[k + 1] = items[k + 1], items[k]
+                n += 1
+                changed = True
+    return ([x for _, x in items], n)
+
+
+def _has_term(v):
+    if isinstance(v, T):
+        return True
+    if isinstance(v, (tuple, list)):
+        return any(_has_term(x) for x in v)
+    return False
+
+
+def _new(sx, a, kw):
+    """The object allocation of sympy (``super().__new__(cls, *args)`` / ``Expr.__new__(cls, *args)``)."""
+    if a and isinstance(a[0], Obj) and a[0].name == "super":
+        a = a[1:]
+    return T("new", tuple(_freeze(x) for x in a), tuple(sorted(kw.items())))
+
+
+def _super(sx, a, kw):
+    o = Obj(None, "super")
+    o.attrs["__new__"] = _new
+    return o
+
+
+def _symbol(sx, a, kw):
+    return a[0] if len(a) == 1 and isinstance(a[0], str) and not kw else NotImplemented
+
+
+def _tensor_sx(ctx, what, hooks=None):
+    hk = {"_sort_anticommuting_fermions": _sort_fermions, "super": _super, "S": sk.S_OBJ,
+          "sympify": lambda sx, a, kw: a[0], "type": sk.type_hook, "__new__": _new, "Symbol": _symbol}
+    hk.update(hooks or {})
+    return Symex(ctx.model, inline=lambda q: True, hooks=hk, what=what)
+
+
+def _resolve(sx, cls_name, method):
+    r = sx.find_method(f"{SO}:{cls_name}", method)
+    if r is None:
+        raise AnalysisError(f"R06: {cls_name}.{method} does not resolve to a function of the library")
+    return r[0]
+
+
+def _decode_new(v):
+    """(sign, class, name, upper tuple, lower tuple, bra_ket_sym) of a constructed tensor, 0 for zero, else None."""
+    if v == 0 and not isinstance(v, T):
+        return 0
+    sign = 1
+    if isinstance(v, T) and v.op == "mul" and len(v.args) == 2 and v.args[0] == -1:
+        sign, v = -1, v.args[1]
+    if isinstance(v, T) and v.op == "call" and isinstance(v.args[0], T) and v.args[0].op == "attr" \
+            and v.args[0].args[1] == "__new__":
+        v = T("new", v.args[1], v.args[2])          # <BaseClass>.__new__(cls, ...)
+    if not (isinstance(v, T) and v.op == "new" and len(v.args[0]) == 5 and not v.args[1]):
+        return None
+    cls, name, up, lo, bks = v.args[0]
+    groups = []
+    for g in (up, lo):
+        if not (isinstance(g, T) and g.op == "call" and g.args[0] == "Tuple" and not g.args[2]):
+            return None
+        groups.append(tuple(g.args[1]))
+    return (sign, cls, name, groups[0], groups[1], bks)
+
+
+# ---------------------------------------------------------------------- R06a
 
 def r06a(ctx):
-    fn = ctx.model.fn("sympy_objects:AntiSymmetricTensor._need_bra_ket_swap")
+    sx = _tensor_sx(ctx, "_need_bra_ket_swap")
     names = ["i", "j", "i1", "j2"]
     one = [(_ix(sp, s, n),) for sp in SPACES for s in SPINS for n in names]
     two_src = [_ix(sp, s, n) for sp in ("occ", "virt") for s in ("", "a") for n in ("i", "j1")]
+    if ctx.tier != "thorough":
+        two_src = [x for k, x in enumerate(two_src) if k not in (3, 4)]
     two = [(a, b) for a in two_src for b in two_src]
-    interp_args = {"cls": Rec("cls")}
-    n_pairs = 0
-    viol = {"both": None, "none": None, "equal": None}
-    for group in (one, two):
-        res = {}
-        for u in group:
-            for l in group:
-                kind, v = Interp({}, what="_need_bra_ket_swap").call(
-                    fn, {**interp_args, "upper": list(u), "lower": list(l)})
-                if kind == "raise":
-                    raise AnalysisError(f"R06a: _need_bra_ket_swap raised {v}")
-                res[(id(u), id(l))] = bool(v)
-        for u in group:
-            for l in group:
-                n_pairs += 1
-                a, b = res[(id(u), id(l))], res[(id(l), id(u))]
-                same = _key(u) == _key(l)
-                if a and b and viol["both"] is None:
-                    viol["both"] = (u, l)
-                if not same and not a and not b and viol["none"] is None:
-                    viol["none"] = (u, l)
-                if same and (a or b) and viol["equal"] is None:
-                    viol["equal"] = (u, l)
-    ctx.check("R06a", fn, viol["both"] is None, f"{n_pairs} ordered pairs: never swap in both directions",
-              f"swap demanded in both directions for upper/lower = {viol['both']}: the two orderings "
-              "of one tensor get different canonical forms (or oscillate)", key="asymmetric")
-    ctx.check("R06a", fn, viol["none"] is None, "distinct keys: exactly one direction swaps",
-              f"no direction swaps although keys differ for {viol['none']}: bra-ket partners are not "
-              "identified", key="total")
-    ctx.check("R06a", fn, viol["equal"] is None, "equal keys: no swap",
-              f"swap demanded for equal keys {viol['equal']}", key="irreflexive")
-    kind, v = Interp({}, what="_need_bra_ket_swap").call(
-        fn, {**interp_args, "upper": [one[0][0]], "lower": []})
-    ctx.check("R06a", fn, kind == "raise", "unequal group sizes refused",
-              "unequal numbers of upper and lower indices are not refused", key="len")
+    done = {}
+    for cname in TENSOR_CLASSES:
+        fn = _resolve(sx, cname, "_need_bra_ket_swap")
+        if id(fn) in done:
+            ctx.ok("R06a", fn, f"{cname} shares the bra-ket ordering of {done[id(fn)]}", key=f"shared {cname}")
+            continue
+        done[id(fn)] = cname
+        cls = Obj(f"{SO}:{cname}", cname)
+
+        def swap(u, l):
+            outs = sx.run(fn, lambda: dict(cls=cls, upper=list(u), lower=list(l)))
+            if len(outs) != 1 or outs[0].kind != "return" or not isinstance(outs[0].value, bool):
+                raise AnalysisError(f"R06a: {cname}._need_bra_ket_swap({u}, {l}) -> {outs}")
+            return outs[0].value
+        n_pairs = 0
+        viol = {"both": None, "none": None, "equal": None}
+        for group in (one, two):
+            res = {(iu, il): swap(u, l) for iu, u in enumerate(group) for il, l in enumerate(group)}
+            for iu, u in enumerate(group):
+                for il, l in enumerate(group):
+                    n_pairs += 1
+                    a, b = res[(iu, il)], res[(il, iu)]
+                    same = _gkey(u) == _gkey(l)
+                    if a and b and viol["both"] is None:
+                        viol["both"] = (u, l)
+                    if not same and not a and not b and viol["none"] is None:
+                        viol["none"] = (u, l)
+                    if same and (a or b) and viol["equal"] is None:
+                        viol["equal"] = (u, l)
+        ctx.check("R06a", fn, viol["both"] is None, f"{cname}: {n_pairs} ordered pairs: never swap in both directions",
+                  f"{cname}: swap demanded in both directions for upper/lower = {viol['both']}: the two orderings "
+                  "of one tensor get different canonical forms (or oscillate)", key=f"asymmetric {cname}")
+        ctx.check("R06a", fn, viol["none"] is None, f"{cname}: distinct keys: exactly one direction swaps",
+                  f"{cname}: no direction swaps although keys differ for {viol['none']}: bra-ket partners are not "
+                  "identified", key=f"total {cname}")
+        ctx.check("R06a", fn, viol["equal"] is None, f"{cname}: equal keys: no swap",
+                  f"{cname}: swap demanded for equal keys {viol['equal']}", key=f"irreflexive {cname}")
+        outs = sx.run(fn, lambda: dict(cls=cls, upper=[one[0][0]], lower=[]))
+        ctx.check("R06a", fn, all(o.kind == "raise" for o in outs), f"{cname}: unequal group sizes refused",
+                  f"{cname}: unequal numbers of upper and lower indices are not refused", key=f"len {cname}")
+
+
+# ---------------------------------------------------------------------- R06b
+
+def _pool(tier):
+    p = [_ix("occ", "", "i"), _ix("occ", "", "j"), _ix("virt", "", "a"), _ix("occ", "a", "i"), _ix("general", "", "p"),
+         _ix("occ", "", "i1")]
+    if tier == "thorough":
+        p += [_ix("virt", "b", "a"), _ix("occ", "", "i", tag="#2")]     # a second, distinct dummy named i
+    return p
+
+
+def _perm_sign(src, dst):
+    """Parity of the permutation taking the tuple of distinct objects src to dst."""
+    pos = [next(k for k, y in enumerate(src) if y is x) for x in dst]
+    s = 1
+    for a in range(len(pos)):
+        for b in range(a + 1, len(pos)):
+            if pos[a] > pos[b]:
+                s = -s
+    return s
+
+
+def _same_objs(a, b):
+    return len(a) == len(b) and all(x is y for x, y in zip(a, b))
+
+
+def _is_perm(a, b):
+    return sorted(map(id, a)) == sorted(map(id, b))
+
+
+def r06b(ctx):
+    rule = "R06b"
+    sx = _tensor_sx(ctx, "tensor constructors")
+    pool = _pool(ctx.tier)
+    by_term = {_freeze(x): x for x in pool}
+    thorough = ctx.tier == "thorough"
+    seen = {}
+    for cname in TENSOR_CLASSES:
+        fn = _resolve(sx, cname, "__new__")
+        antisym = cname != "SymmetricTensor"
+        cls = Obj(f"{SO}:{cname}", cname)
+        # a class that resolves to the constructor and comparison of an already explored class computes the same
+        # function of (cls, indices): only the small ranks are repeated for it
+        impl = (id(fn), id(_resolve(sx, cname, "_need_bra_ket_swap")))
+        ranks = [(1, 1)]
+        samples = {}
+        if impl not in seen or thorough:
+            samples[(2, 2)] = pool if thorough else pool[:5]
+        else:
+            samples[(2, 2)] = pool[:3]
+        if thorough:
+            ranks.append((2, 1))
+            samples[(3, 3)] = pool[:3] + pool[5:6]
+        seen[impl] = cname
+        n_eval = n_twins = 0
+        bad = {}
+
+        def flag(kind, msg):
+            bad.setdefault(kind, msg)
+        for (nu, nl), bks in itertools.product(ranks + list(samples), (0, 1, -1)):
+            if nu != nl and bks != 0:
+                continue
+            src = samples.get((nu, nl), pool)
+            table = {}
+            for up in itertools.product(src, repeat=nu):
+                for lo in itertools.product(src, repeat=nl):
+                    outs = sx.run(fn, lambda: dict(cls=cls, name="X", upper=tuple(up), lower=tuple(lo), bra_ket_sym=bks))
+                    n_eval += 1
+                    if len(outs) != 1 or outs[0].kind != "return":
+                        flag("raises", f"{cname}({list(up)}, {list(lo)}, bra_ket_sym={bks}) -> {outs}")
+                        continue
+                    d = _decode_new(outs[0].value)
+                    if d is None:
+                        flag("shape", f"{cname}({list(up)}, {list(lo)}, bra_ket_sym={bks}) gives {show(outs[0].value)[:200]}, "
+                             "neither zero nor +-(one tensor object)")
+                        continue
+                    if d != 0:
+                        sign, k, name, cu, cl, b = d
+                        try:
+                            d = (sign, tuple(by_term[x] for x in cu), tuple(by_term[x] for x in cl), k, name, b)
+                        except KeyError:
+                            flag("shape", f"{cname}({list(up)}, {list(lo)}, {bks}) contains foreign indices: {show(outs[0].value)[:200]}")
+                            continue
+                    table[(tuple(map(id, up)), tuple(map(id, lo)))] = (up, lo, d)
+            for (ku, kl), (up, lo, d) in table.items():
+                what = f"{cname}({list(up)}, {list(lo)}, bra_ket_sym={bks})"
+                rep = (antisym and (len(set(ku)) < nu or len(set(kl)) < nl))
+                if rep:
+                    if d != 0:
+                        flag("pauli", f"{what}: repeated index in an antisymmetric group does not give zero")
+                    continue
+                if d == 0:
+                    flag("zero", f"{what} evaluates to zero although the declared symmetry does not force it" +
+                         ("" if antisym else " (a symmetric tensor with a repeated index inside a group does not vanish)"))
+                    continue
+                sign, cu, cl, k, name, b = d
+                if k != sym(cname) or name != "X" or b != bks:
+                    flag("identity", f"{what} builds class/name/symmetry {show(k)}, {name!r}, {b}")
+                # the canonical groups are the given groups, exchanged only under a bra-ket symmetry
+                straight = _is_perm(cu, up) and _is_perm(cl, lo)
+                swapped = _is_perm(cu, lo) and _is_perm(cl, up)
+                if not (straight or (bks != 0 and swapped)):
+                    flag("groups", f"{what}: canonical groups {list(cu)} / {list(cl)} are not the given upper/lower groups"
+                         + (" (exchanged without a bra-ket symmetry)" if swapped else ""))
+                    continue
+                # permutations inside the groups
+                for pu in itertools.permutations(range(nu)):
+                    for pl in itertools.permutations(range(nl)):
+                        u2, l2 = tuple(up[x] for x in pu), tuple(lo[x] for x in pl)
+                        o2 = table.get((tuple(map(id, u2)), tuple(map(id, l2))))
+                        if o2 is None or o2[2] == 0:
+                            continue
+                        s2, cu2, cl2 = o2[2][:3]
+                        if not (_same_objs(cu, cu2) and _same_objs(cl, cl2)):
+                            flag("canonical", f"{what} and the reordered {cname}({list(u2)}, {list(l2)}) give different objects "
+                                 f"{list(cu)}/{list(cl)} vs {list(cu2)}/{list(cl2)}")
+                            continue
+                        if len(set(ku)) < nu or len(set(kl)) < nl:
+                            want = 1
+                        else:
+                            want = _perm_sign(up, u2) * _perm_sign(lo, l2) if antisym else 1
+                        if s2 * sign != want:
+                            flag("sign", f"{what} = {'+' if sign > 0 else '-'}T but {cname}({list(u2)}, {list(l2)}) = "
+                                 f"{'+' if s2 > 0 else '-'}T: relative sign {s2 * sign:+d}, the permutation symmetry prescribes {want:+d}")
+                # bra-ket partner
+                o2 = table.get((kl, ku)) if nu == nl else None
+                twins = sorted(map(_ikey, up)) == sorted(map(_ikey, lo)) and not _is_perm(up, lo)
+                if twins:
+                    n_twins += 1        # distinct indices with equal (space, spin, name): see ASSUMPTIONS
+                elif o2 is not None and o2[2] != 0:
+                    s2, cu2, cl2 = o2[2][:3]
+                    if bks == 0:
+                        if _same_objs(cu, cu2) and _same_objs(cl, cl2) and not (_is_perm(up, lo)):
+                            flag("identified", f"{what} and {cname}({list(lo)}, {list(up)}) are identified without a bra-ket symmetry")
+                    else:
+                        if not (_same_objs(cu, cu2) and _same_objs(cl, cl2)):
+                            flag("braket", f"{what} and its bra-ket partner {cname}({list(lo)}, {list(up)}) give different objects "
+                                 f"{list(cu)}/{list(cl)} vs {list(cu2)}/{list(cl2)}")
+                        elif not _is_perm(up, lo) and s2 * sign != bks:
+                            flag("braket sign", f"{what} = {'+' if sign > 0 else '-'}T, bra-ket partner {cname}({list(lo)}, "
+                                 f"{list(up)}) = {'+' if s2 > 0 else '-'}T: relative sign {s2 * sign:+d}, bra_ket_sym prescribes {bks:+d}")
+        for kind, fact in (("raises", "constructors return"), ("shape", "result is zero or +-(one object)"),
+                           ("pauli", "repeated index in an antisymmetric group gives zero"),
+                           ("zero", "nothing else gives zero"), ("identity", "class, name and symmetry kept"),
+                           ("groups", "canonical groups are the given groups (exchanged only under bra-ket symmetry)"),
+                           ("canonical", "all orderings inside the groups give one object"),
+                           ("sign", "relative sign of reorderings as prescribed"),
+                           ("identified", "bra-ket partners stay distinct without symmetry"),
+                           ("braket", "bra-ket partners give one object"), ("braket sign", "bra-ket partners differ by bra_ket_sym")):
+            ctx.check(rule, fn, kind not in bad, f"{cname}: {fact} ({n_eval} constructions)", bad.get(kind, ""),
+                      key=f"{cname} {kind}")
+        ctx.floor(rule, f"evaluated constructions of {cname}", n_eval, 100)
 
 
 # ---------------------------------------------------------------------- R06c
 
-S_ZERO, S_ONE, S_NEG = Sym("S.Zero"), Sym("S.One"), Sym("S.NegativeOne")
-S = Rec("S", Zero=S_ZERO, One=S_ONE, NegativeOne=S_NEG)
-
-
-def _sympify(i, n, a, kw):
-    v = a[0]
-    if isinstance(v, int):
-        return {0: S_ZERO, 1: S_ONE, -1: S_NEG}.get(v, Sym(f"Int({v})"))
-    if isinstance(v, str):
-        return Sym("Symbol", (v,))
-    return v
-
-
 def _new_scenarios(ctx, cls_name, antisym: bool):
-    fn = ctx.model.fn(f"sympy_objects:{cls_name}.__new__")
+    rule = "R06c"
+    probe_sx = _tensor_sx(ctx, "sort key")
+    canonical = Func(ctx.model.fn("indices:sort_idx_canonical"), [], ctx.model.module("indices"), "sort_idx_canonical")
+    probes = [_ix("occ", "", "i"), _ix("virt", "a", "b2"), _ix("general", "b", "p11")]
+    fn = _resolve(probe_sx, cls_name, "__new__")
     U0 = (_ix("occ", "", "i"), _ix("occ", "", "j"))
     L0 = (_ix("virt", "", "a"), _ix("virt", "", "b"))
-    Uc, Lc = ("sortedU",), ("sortedL",)
     n = 0
-    for sign_u, sign_l, need, bks, all_index in itertools.product(
-            (0, 1), (0, 1), (False, True), (0, 1, -1), (True, False)):
+    for sign_u, sign_l, need, bks, all_index in itertools.product((0, 1), (0, 1), (False, True), (0, 1, -1), (True, False)):
         if not antisym and (sign_u or sign_l):
             continue
-        up = tuple(U0) if all_index else (U0[0], Rec("Dummy", _classes=("Dummy",)))
+        foreign = Obj(None, "x")
+        foreign.attrs["_classes"] = ("Dummy", "Symbol")
+        up = tuple(U0) if all_index else (foreign, U0[0])      # a non-Index entry sorts in front of every Index
         lo = tuple(L0)
         sorted_u = tuple(reversed(up)) if sign_u else up
         sorted_l = tuple(reversed(lo)) if sign_l else lo
+        log = {"swap": [], "keys": [], "unknown": []}
 
-        def sort_fermions(i, node, a, kw, up=up, lo=lo, su=sorted_u, sl=sorted_l,
-                          sign_u=sign_u, sign_l=sign_l):
-            if not (isinstance(kw.get("key"), Sym) and kw["key"].name == "sort_idx_canonical"):
-                raise AnalysisError("R06c: index groups not sorted with sort_idx_canonical")
-            if tuple(a[0]) == up:
-                return (list(su), sign_u)
-            if tuple(a[0]) == lo:
-                return (list(sl), sign_l)
-            raise AnalysisError("R06c: unexpected sequence sorted")
+        def which(seq, up=up, lo=lo, su=sorted_u, sl=sorted_l):
+            seq = tuple(seq)
+            if _same_objs(seq, up):
+                return su
+            if _same_objs(seq, lo):
+                return sl
+            log["unknown"].append(seq)
+            return seq
 
-        def sorted_(i, node, a, kw, up=up, lo=lo, su=sorted_u, sl=sorted_l):
-            if not (isinstance(kw.get("key"), Sym) and kw["key"].name == "sort_idx_canonical"):
-                raise AnalysisError("R06c: index groups not sorted with sort_idx_canonical")
-            if tuple(a[0]) == up:
-                return list(su)
-            if tuple(a[0]) == lo:
-                return list(sl)
-            raise AnalysisError("R06c: unexpected sequence sorted")
-        swap_calls = []
+        def check_key(sx, kw, a):
+            key = kw.get("key", a[1] if len(a) > 1 else None)
+            if key is None:
+                log["keys"].append("no key")
+                return
+            for p in probes:
+                got = sx.call_value(key, [p], {}, None)
+                want = sx.call_value(canonical, [p], {}, None)
+                if got != want:
+                    log["keys"].append(f"key({p}) = {show(_freeze(got))}, sort_idx_canonical gives {show(_freeze(want))}")
+                    return
 
-        def need_swap(i, node, a, kw, need=need):
-            swap_calls.append((tuple(a[0]), tuple(a[1])))
+        def sort_fermions(sx, a, kw, sign_u=sign_u, sign_l=sign_l, up=up):
+            check_key(sx, kw, a)
+            seq = tuple(sx.iterate(a[0], None))
+            return (list(which(seq)), sign_u if _same_objs(seq, up) else sign_l)
+
+        def sorted_(sx, a, kw):
+            check_key(sx, kw, a)
+            return list(which(sx.iterate(a[0], None)))
+
+        def need_swap(sx, a, kw, need=need):
+            u, l = (kw["upper"], kw["lower"]) if "upper" in kw and "lower" in kw else \
+                (a[-1], kw["lower"]) if "lower" in kw else (a[-2], a[-1])
+            log["swap"].append((tuple(sx.iterate(u, None)), tuple(sx.iterate(l, None))))
             return need
-        cls = Rec("cls", _need_bra_ket_swap=need_swap, name=cls_name)
+        sx = _tensor_sx(ctx, f"{cls_name}.__new__", {"_sort_anticommuting_fermions": sort_fermions, "sorted": sorted_,
+                                                     "_need_bra_ket_swap": need_swap})
 
-        def new(i, node, a, kw):
-            return Sym("obj", a)
-        sup = Rec("super", __new__=new)
-        env = {"_sort_anticommuting_fermions": sort_fermions, "sorted": sorted_,
-               "sort_idx_canonical": Sym("sort_idx_canonical"), "sympify": _sympify, "S": S,
-               "Index": klass("Index"), "Tuple": lambda i, node, a, kw: ("Tuple",) + tuple(a),
-               "super": lambda i, node, a, kw: sup, "AntiSymmetricTensor": Rec("class", name="AntiSymmetricTensor"),
-               "ViolationOfPauliPrinciple": Sym("ViolationOfPauliPrinciple")}
-        kind, val = Interp(env, what=f"{cls_name}.__new__").call(
-            fn, {"cls": cls, "name": "T", "upper": up, "lower": lo, "bra_ket_sym": bks})
+        def make():
+            return dict(cls=Obj(f"{SO}:{cls_name}", cls_name), name="T", upper=up, lower=lo, bra_ket_sym=bks)
+        outs = sx.run(fn, make)
         n += 1
-        label = (f"parity_u={sign_u} parity_l={sign_l} swap_needed={need} bra_ket_sym={bks} "
-                 f"all_Index={all_index}")
-        if kind == "raise":
-            ctx.bad("R06c", fn, f"{label}: raises {val}", key=label)
+        label = (f"parity_u={sign_u} parity_l={sign_l} swap_needed={need} bra_ket_sym={bks} all_Index={all_index}")
+        if len(outs) != 1 or outs[0].kind != "return":
+            ctx.bad(rule, fn, f"{label}: {outs}", key=label)
             continue
-        neg = False
-        obj = val
-        if isinstance(val, Sym) and val.name == "Mul" and val.args[0] == -1:
-            neg, obj = True, val.args[1]
-        if not (isinstance(obj, Sym) and obj.name == "obj" and len(obj.args) == 5):
-            ctx.bad("R06c", fn, f"{label}: unexpected result {val!r}", key=label)
+        d = _decode_new(outs[0].value)
+        if not d:
+            ctx.bad(rule, fn, f"{label}: unexpected result {show(_freeze(outs[0].value))[:200]}", key=label)
             continue
-        _, _, r_up, r_lo, r_bks = obj.args
+        sign, k, name, r_up, r_lo, r_bks = d
         do_swap = need and bks != 0 and all_index
         w_up, w_lo = (sorted_l, sorted_u) if do_swap else (sorted_u, sorted_l)
         w_neg = ((sign_u + sign_l) % 2 == 1) if antisym else False
         if do_swap and bks == -1:
             w_neg = not w_neg
-        ok = (r_up == ("Tuple",) + tuple(w_up) and r_lo == ("Tuple",) + tuple(w_lo)
-              and neg == w_neg and r_bks is {0: S_ZERO, 1: S_ONE, -1: S_NEG}[bks])
         why = []
-        if neg != w_neg:
-            why.append(f"sign is {'-' if neg else '+'}, declared symmetry prescribes {'-' if w_neg else '+'}")
-        if r_up != ("Tuple",) + tuple(w_up) or r_lo != ("Tuple",) + tuple(w_lo):
+        if (sign < 0) != w_neg:
+            why.append(f"sign is {'-' if sign < 0 else '+'}, declared symmetry prescribes {'-' if w_neg else '+'}")
+        if r_up != tuple(_freeze(x) for x in w_up) or r_lo != tuple(_freeze(x) for x in w_lo):
             why.append("upper/lower groups are " + ("not " if do_swap else "") + "exchanged or not the sorted groups")
-        if swap_calls and (do_swap or need):
-            su, sl = swap_calls[0]
-            if (su, sl) != (tuple(sorted_u), tuple(sorted_l)):
-                ok = False
+        if r_bks != bks or name != "T":
+            why.append(f"name/symmetry stored as {name!r}/{r_bks}")
+        if log["keys"]:
+            why.append("index groups not sorted with the canonical key: " + log["keys"][0])
+        if log["unknown"]:
+            why.append(f"a sequence other than the given upper/lower group is sorted: {log['unknown'][0]}")
+        if log["swap"] and (do_swap or need):
+            su, sl = log["swap"][0]
+            if not (_same_objs(su, sorted_u) and _same_objs(sl, sorted_l)):
                 why.append("the bra-ket comparison is not made on the sorted groups")
-        ctx.check("R06c", fn, ok, f"{label}: sign/swap as prescribed", f"{label}: " + "; ".join(why or ["mismatch"]),
-                  key=label)
+        if bks != 0 and all_index and not log["swap"]:
+            why.append("the bra-ket comparison is not consulted")
+        ctx.check(rule, fn, not why, f"{label}: sign/swap as prescribed", f"{label}: " + "; ".join(why), key=label)
     # invalid symmetry refused
-    cls = Rec("cls", _need_bra_ket_swap=lambda i, node, a, kw: False)
-    U0l, L0l = list(U0), list(L0)
-    env = dict(env)
-    env["_sort_anticommuting_fermions"] = lambda i, node, a, kw: (list(a[0]), 0)
-    env["sorted"] = lambda i, node, a, kw: list(a[0])
-    env2 = dict(env)
-    kind, val = Interp(env2, what=f"{cls_name}.__new__").call(
-        fn, {"cls": cls, "name": "T", "upper": tuple(U0), "lower": tuple(L0), "bra_ket_sym": 2})
-    ctx.check("R06c", fn, kind == "raise", "bra_ket_sym=2 refused", "invalid bra-ket symmetry accepted",
+    ident = {"_sort_anticommuting_fermions": lambda sx, a, kw: (list(sx.iterate(a[0], None)), 0),
+             "sorted": lambda sx, a, kw: list(sx.iterate(a[0], None))}
+    ident["_need_bra_ket_swap"] = lambda sx_, a, kw: False
+    sx = _tensor_sx(ctx, f"{cls_name}.__new__", ident)
+
+    def make2(bks, up):
+        return dict(cls=Obj(f"{SO}:{cls_name}", cls_name), name="T", upper=tuple(up), lower=tuple(L0), bra_ket_sym=bks)
+    outs = sx.run(fn, lambda: make2(2, U0))
+    ctx.check(rule, fn, all(o.kind == "raise" for o in outs), "bra_ket_sym=2 refused", "invalid bra-ket symmetry accepted",
               key="invalid bks")
+
     # repeated index inside a group: zero for antisymmetric groups, a regular tensor for symmetric ones
-    def pauli(i, node, a, kw):
-        if len({id(x) for x in a[0]}) != len(list(a[0])):
+    def pauli(sx_, a, kw):
+        seq = list(sx_.iterate(a[0], None))
+        if len({id(x) for x in seq}) != len(seq):
             raise Raised("ViolationOfPauliPrinciple")
-        return (list(a[0]), 0)
-    env3 = dict(env)
-    env3["_sort_anticommuting_fermions"] = pauli
-    rep = (U0[0], U0[0])
-    kind, val = Interp(env3, what=f"{cls_name}.__new__").call(
-        fn, {"cls": cls, "name": "T", "upper": rep, "lower": tuple(L0), "bra_ket_sym": 0})
+        return (seq, 0)
+    sx = _tensor_sx(ctx, f"{cls_name}.__new__", dict(ident, _sort_anticommuting_fermions=pauli))
+    outs = sx.run(fn, lambda: make2(0, (U0[0], U0[0])))
+    d = _decode_new(outs[0].value) if len(outs) == 1 and outs[0].kind == "return" else None
     if antisym:
-        ctx.check("R06c", fn, kind == "return" and val is S_ZERO, "repeated index in an antisymmetric group gives zero",
-                  f"Pauli violation gives {kind} {val!r} instead of zero", key="pauli")
+        ctx.check(rule, fn, d == 0, "repeated index in an antisymmetric group gives zero",
+                  f"Pauli violation gives {outs} instead of zero", key="pauli")
     else:
-        ok = kind == "return" and isinstance(val, Sym) and val.name == "obj"
-        ctx.check("R06c", fn, ok, "repeated index in a symmetric group does not vanish",
-                  f"a symmetric tensor with a repeated index inside a group evaluates to {val!r}; the declared "
+        ctx.check(rule, fn, bool(d), "repeated index in a symmetric group does not vanish",
+                  f"a symmetric tensor with a repeated index inside a group evaluates to {outs}; the declared "
                   "symmetry does not force it to zero", key="symmetric repeated")
     return n
 
 
 def r06c(ctx):
-    _new_scenarios(ctx, "AntiSymmetricTensor", True)
-    _new_scenarios(ctx, "SymmetricTensor", False)
-    # Amplitude / SymmetricTensor inherit the comparison
-    for c in ("Amplitude", "SymmetricTensor"):
-        cls = ctx.model.cls(f"sympy_objects:{c}")
-        own = [n.name for n in cls.body if isinstance(n, ast.FunctionDef)]
-        ctx.check("R06c", cls, "_need_bra_ket_swap" not in own and U(cls.bases[0]) == "AntiSymmetricTensor",
-                  f"{c} shares the bra-ket ordering", f"{c} overrides the bra-ket ordering or changed base",
-                  key=f"inherit {c}")
-    amp = ctx.model.cls("sympy_objects:Amplitude")
-    ctx.check("R06c", amp, "__new__" not in [n.name for n in amp.body if isinstance(n, ast.FunctionDef)],
-              "Amplitude uses the antisymmetric constructor", "Amplitude has its own constructor", key="amp new")
+    sx = _tensor_sx(ctx, "resolve")
+    done = {}
+    for cname in TENSOR_CLASSES:
+        fn = _resolve(sx, cname, "__new__")
+        if id(fn) in done:
+            ctx.ok("R06c", fn, f"{cname} is constructed by the constructor of {done[id(fn)]}", key=f"shared {cname}")
+            continue
+        done[id(fn)] = cname
+        _new_scenarios(ctx, cname, cname != "SymmetricTensor")
 
 
 # ---------------------------------------------------------------------- R06d
 
+def _linear_zero(t):
+    """True if the linear combination of opaque symbols cancels identically, else None (unknown)."""
+    acc = {}
+    for s in (t.args if isinstance(t, T) and t.op == "add" else [t]):
+        c, x = 1, s
+        if isinstance(s, T) and s.op == "mul" and len(s.args) == 2 and is_num(s.args[0]):
+            c, x = s.args
+        if is_num(x):
+            return None
+        acc[x] = acc.get(x, 0) + c
+    return True if all(v == 0 for v in acc.values()) else None
+
 
 def r06d(ctx):
-    fn = ctx.model.fn("sympy_objects:KroneckerDelta.eval")
+    rule = "R06d"
 
-    def sub(interp, op, a, b, node):
-        if op is ast.Sub:
-            return Rec("diff", is_zero=(True if a is b else None))
-        raise AnalysisError("R06d: unexpected arithmetic on indices")
+    def attr_hook(sx, obj, attr, node):
+        if attr == "is_zero" and isinstance(obj, T):
+            return _linear_zero(obj)
+        return NotImplemented
+    def cls(sx_, a, kw):
+        return T("delta", tuple(_freeze(x) for x in a)) if not kw else NotImplemented
+    hooks = {"fuzzy_not": lambda sx, a, kw: (None if a[0] is None else not a[0]), "S": sk.S_OBJ, "KroneckerDelta": cls}
+    sx = Symex(ctx.model, inline=lambda q: True, hooks=hooks, what="KroneckerDelta.eval", attr_hook=attr_hook)
+    fn = ctx.model.fn(f"{SO}:KroneckerDelta.eval")
 
-    def key(x):
-        n = x.name
-        return (x.space[0], x.spin, int(n[1:]) if n[1:] else 0, n[0])
-
-    def mk(space, spin, name):
-        r = _ix(space, spin, name)
-        r.attrs["_binop"] = sub
-        return r
-
-    def min_(i, node, a, kw):
-        if not (isinstance(kw.get("key"), Sym) and kw["key"].name == "sort_idx_canonical"):
-            raise AnalysisError("R06d: min without the canonical key")
-        return min(a, key=key)
-    cls = lambda i, node, a, kw: Sym("delta", a)  # noqa: E731
-    env = {"fuzzy_not": lambda i, node, a, kw: (None if a[0] is None else not a[0]),
-           "S": S, "min": min_, "sort_idx_canonical": Sym("sort_idx_canonical")}
+    def run(i, j):
+        outs = sx.run(fn, lambda: dict(cls=cls, i=i, j=j))
+        if len(outs) != 1:
+            raise AnalysisError(f"R06d: KroneckerDelta.eval({i}, {j}) -> {outs}")
+        return outs[0]
     for (s1, p1), (s2, p2) in itertools.product(itertools.product(SPACES, SPINS), repeat=2):
-        i, j = mk(s1, p1, "p"), mk(s2, p2, "q")
-        label = f"({s1[0]}{p1 or 'n'},{s2[0]}{p2 or 'n'})"
-        kind, val = Interp(env, what="KroneckerDelta.eval").call(fn, {"cls": cls, "i": i, "j": j})
-        zero = (s1 != "general" and s2 != "general" and s1 != s2) or bool(p1 and p2 and p1 != p2)
-        if zero:
-            got_ok = kind == "return" and val is S_ZERO
-            want = "zero"
-        else:
-            first = min([i, j], key=key)
-            if first is i:
-                got_ok = kind == "return" and val is None
+        for n1, n2 in (("p", "q"), ("q2", "p11")):
+            i, j = _ix(s1, p1, n1), _ix(s2, p2, n2)
+            label = f"({s1[0]}{p1 or 'n'}{n1},{s2[0]}{p2 or 'n'}{n2})"
+            o = run(i, j)
+            zero = (s1 != "general" and s2 != "general" and s1 != s2) or bool(p1 and p2 and p1 != p2)
+            if zero:
+                got_ok = o.kind == "return" and o.value == 0 and not isinstance(o.value, (T, bool))
+                want = "zero"
+            elif _ikey(i) <= _ikey(j):
+                got_ok = o.kind == "return" and o.value is None
                 want = "kept as given (already canonical)"
             else:
-                got_ok = kind == "return" and isinstance(val, Sym) and val.name == "delta" \
-                    and val.args[0] is j and val.args[1] is i
+                got_ok = o.kind == "return" and o.value == T("delta", (_freeze(j), _freeze(i)))
                 want = "arguments exchanged into canonical order"
-        ctx.check("R06d", fn, got_ok, f"{label}: {want}", f"{label}: eval gives {kind} {val!r}, expected {want}",
-                  key=f"eval {label}")
-    i = mk("occ", "", "i")
-    kind, val = Interp(env, what="KroneckerDelta.eval").call(fn, {"cls": cls, "i": i, "j": i})
-    ctx.check("R06d", fn, kind == "return" and val is S_ONE, "same index gives one", f"delta(i,i) gives {val!r}",
-              key="same index")
-    pw = ctx.model.fn("sympy_objects:KroneckerDelta._eval_power")
-    me = Rec("delta")
-    kind, val = Interp({"S": S}, what="_eval_power").call(
-        pw, {"self": me, "exp": Rec("exp", is_positive=True, is_negative=False)})
-    ctx.check("R06d", pw, kind == "return" and val is me, "positive power collapses to the delta",
-              f"delta**n (n>0) gives {val!r}", key="power")
+            ctx.check(rule, fn, got_ok, f"{label}: {want}",
+                      f"{label}: eval gives {o.kind} {show(_freeze(o.value)) if o.kind == 'return' else o.exc}, expected {want}",
+                      key=f"eval {label}")
+    i = _ix("occ", "", "i")
+    o = run(i, i)
+    ctx.check(rule, fn, o.kind == "return" and o.value == 1 and not isinstance(o.value, (T, bool)), "same index gives one",
+              f"delta(i,i) gives {o}", key="same index")
+    # powers: delta**n = delta (n > 0), 1/delta (n < 0, n != -1), untouched otherwise
+    pw = ctx.model.fn(f"{SO}:KroneckerDelta._eval_power")
+    for pos, neg, minus_one in ((True, False, False), (False, True, False), (False, True, True), (False, False, False)):
+        outs = _run_power(ctx, pw, pos, neg, minus_one)
+        label = f"exponent positive={pos} negative={neg} is_minus_one={minus_one}"
+        if len(outs) != 1 or outs[0].kind != "return":
+            ctx.bad(rule, pw, f"_eval_power {label}: {outs}", key=f"power {label}")
+            continue
+        v = outs[0].value
+        if pos:
+            ok, want = isinstance(v, Obj) and v.name == "delta", "the delta itself"
+        elif neg and not minus_one:
+            ok, want = _freeze(v) == t_pow(sym("delta"), -1), "1/delta"
+        else:
+            ok, want = v is None, "not evaluated"
+        ctx.check(rule, pw, ok, f"delta ** ({label}): {want}", f"delta ** ({label}) gives {show(_freeze(v))}, expected {want}",
+                  key=f"power {label}")
 
 
-# ---------------------------------------------------------------------- R06f
+def _run_power(ctx, pw, pos, neg, minus_one):
+    def args():
+        e = Obj(None, "exp", is_positive=pos, is_negative=neg)
+        s = Obj(None, "S", Zero=0, One=1, NegativeOne=e if minus_one else Obj(None, "S.NegativeOne"))
+        args.S = s
+        return dict(self=Obj(None, "delta"), exp=e)
+
+    sx = Symex(ctx.model, inline=lambda q: True, what="_eval_power", hooks=sk._arith_hooks())
+    proxy = Obj(None, "S")
+    sx.hooks["S"] = proxy
+
+    def args2():
+        d = args()
+        proxy.attrs.clear()
+        proxy.attrs.update(args.S.attrs)
+        return d
+    return sx.run(pw, args2)
 
 
-def enclosing_if(node):
-    p = getattr(node, "_parent", None)
-    child = node
-    while p is not None and not isinstance(p, (ast.FunctionDef,)):
-        if isinstance(p, ast.If) and any(child is s for s in p.body):
-            return p
-        child, p = p, getattr(p, "_parent", None)
+# ---------------------------------------------------------------------- R06e / R06f: containers
+
+def _fv(ctx):
+    tn = sk.tensor_names_obj(ctx.model)
+    return {tn.attrs["fock"], tn.attrs["eri"]}
+
+
+def _target_hook(sx, a, kw):
+    me, val = a[0], (a[1] if len(a) > 1 else kw.get("target_idx"))
+    me.attrs["_target_idx"] = None if val is None else T("target", _freeze(val))
     return None
 
 
-def init_symmetry(ctx, rule):
-    """Expr.__init__ applies the declared bra-ket (anti)symmetry whenever any name is declared"""
-    fn = ctx.model.fn("expr_container:Expr.__init__")
-    app = [c for c in calls_in(fn) if call_name(c) == "_apply_tensor_braket_sym"]
-    ctx.floor(rule, "symmetry application in Expr.__init__", len(app), 1)
-    for c in app:
-        iff = enclosing_if(c)
-        ok = iff is None
-        if iff is not None:
-            t = iff.test
-            parts = sorted(U(v) for v in t.values) if isinstance(t, ast.BoolOp) and isinstance(t.op, ast.Or) else [U(t)]
-            ok = parts == ["self._antisym_tensors", "self._sym_tensors"]
-        ctx.check(rule, c, ok, "declared symmetry applied if symmetric OR antisymmetric names are given",
-                  f"Expr.__init__ applies the declared tensor symmetry only under `{U(iff.test) if iff is not None else ''}`: "
-                  "assumptions that consist only of antisym_tensors (or only of sym_tensors) are stored but never applied",
-                  key="init apply")
-    st = {U(a.targets[0] if isinstance(a, ast.Assign) else a.target): U(a.value) for a in walk_fn(fn)
-          if isinstance(a, (ast.Assign, ast.AnnAssign)) and a.value is not None}
-    ctx.check(rule, fn, st.get("self._sym_tensors") == "set() if sym_tensors is None else set(sym_tensors)" and
-              st.get("self._antisym_tensors") == "set() if antisym_tensors is None else set(antisym_tensors)",
-              "declared names stored", "storage of the declared names changed", key="init store")
-    mr = [c for c in calls_in(fn) if call_name(c) == "make_real"]
-    ctx.check(rule, fn, len(mr) == 1 and ("real", True) in conditions(mr[0]), "real=True applies make_real", "make_real call changed",
-              key="init real")
-    tg = [c for c in calls_in(fn) if call_name(c) == "set_target_idx"]
-    ctx.check(rule, fn, len(tg) == 1 and U(tg[0].args[0]) == "target_idx", "targets stored", "target storage changed", key="init target")
+class Ref:
+    """Reference transition functions of the Expr assumption state machine (the expected behaviour)."""
+
+    def __init__(self, ctx, sx, o, n):
+        self.sx, self.o, self.n = sx, o, n
+        self.fv = _fv(ctx)
+
+    def lift(self, st, method, args=None):
+        if sk.is_number(self.o, st.expr):
+            return
+        inner = sk.forwarded(self.sx, "Term", method, args or {})
+        st.expr = sk.expr_sum(self.sx, method, st, inner, self.n)
+
+    def apply(self, st):
+        self.lift(st, "_apply_tensor_braket_sym")
+
+    def make_real(self, st):
+        if st.real:
+            return
+        st.real = True
+        if not self.fv <= st.sym:
+            st.sym |= self.fv
+            self.apply(st)
+        self.lift(st, "make_real")
+
+    def set_sym(self, st, names):
+        new = set(names) | (self.fv if st.real else set())
+        if new != st.sym:
+            st.sym = new
+            self.apply(st)
+
+    def set_anti(self, st, names):
+        new = set(names)
+        if new != st.anti:
+            st.anti = new
+            self.apply(st)
+
+    def init(self, e, real, sym_tensors, antisym_tensors, target_idx):
+        st = ExprState(e, False, sym_tensors or (), antisym_tensors or (), None)
+        if target_idx is not None:
+            st.target = T("target", _freeze(target_idx))
+        if st.sym or st.anti:
+            if real:
+                st.sym |= self.fv
+            self.apply(st)
+        if real:
+            self.make_real(st)
+        return st
 
 
-def r06f(ctx):
-    init_symmetry(ctx, "R06f")
-    mr = ctx.model.fn("expr_container:Expr.make_real")
-    first = common.strip_docstring(mr.body)[0]
-    ctx.check("R06f", first, isinstance(first, ast.If) and U(first.test) in ("self._real", "self.real")
-              and isinstance(first.body[-1], ast.Return), "make_real returns early when already real",
-              "make_real no longer returns early when the expression is already real", key="make_real early")
-    sets = [a for a in common.assigns_to(mr, "self._real")]
-    ctx.check("R06f", mr, any(U(a.value) == "True" for a in sets), "real flag set", "real flag not set",
-              key="make_real flag")
-    upd = [c for c in calls_in(mr) if call_name(c) == "update" and "_sym_tensors" in U(c.func.value)]
-    for c in upd:
-        iff = enclosing_if(c)
-        ok = iff is None
-        if iff is not None:
-            t = iff.test
-            if isinstance(t, ast.BoolOp) and isinstance(t.op, ast.Or):
-                parts = sorted(U(v) for v in t.values)
-                ok = len(parts) == 2 and parts[0].startswith("tensor_names.eri not in ") and parts[1].startswith("tensor_names.fock not in ")
-        ctx.check("R06f", c, ok, "symmetry added whenever fock or eri is not yet declared symmetric",
-                  f"fock/eri symmetry is only added under `{U(iff.test) if iff is not None else ''}`; if just one of the two is "
-                  "already declared, the other is never made bra-ket symmetric", key="make_real guard")
-    ok = any({U(e) for e in c.args[0].elts} == {"tensor_names.fock", "tensor_names.eri"}
-             for c in upd if c.args and isinstance(c.args[0], (ast.List, ast.Tuple, ast.Set)))
-    ctx.check("R06f", mr, ok, "real basis adds bra-ket symmetry to fock and eri only",
-              "make_real does not add exactly fock and eri to the symmetric tensors", key="make_real names")
-    for c in upd:
-        nxt = [x for x in calls_in(mr) if call_name(x) == "_apply_tensor_braket_sym"]
-        ctx.check("R06f", c, bool(nxt), "symmetry re-applied after adding names",
-                  "names added without re-applying the symmetry", key="make_real apply")
-    for meth, attr in (("set_sym_tensors", "_sym_tensors"), ("set_antisym_tensors", "_antisym_tensors")):
-        fn = ctx.model.fn(f"expr_container:Expr.{meth}")
-        app = [c for c in calls_in(fn) if call_name(c) == "_apply_tensor_braket_sym"]
-        ctx.floor("R06f", f"re-application in {meth}", len(app), 1)
-        for c in app:
-            conds = conditions(c)
-            ok = any(not pol and f"self.{attr}" in t and "==" in t for t, pol in conds)
-            ctx.check("R06f", c, ok, f"{meth} re-applies only when the set changed",
-                      f"{meth} re-applies the symmetry unconditionally or under a different test", key=f"{meth} guard")
-        st = [a for a in common.assigns_to(fn, f"self.{attr}")]
-        ctx.check("R06f", fn, len(st) == 1, f"{meth} stores the new set", f"{meth} does not store the set",
-                  key=f"{meth} store")
-    s = ctx.model.fn("expr_container:Expr.set_sym_tensors")
-    upd = [c for c in calls_in(s) if call_name(c) == "update"]
-    ok = any(("self.real", True) in conditions(c) or ("self._real", True) in conditions(c) for c in upd)
-    ctx.check("R06f", s, ok, "real expressions keep fock/eri symmetric", "set_sym_tensors drops fock/eri for real expressions",
-              key="set_sym real")
-    # add_bra_ket_sym
-    ab = ctx.model.fn("sympy_objects:AntiSymmetricTensor.add_bra_ket_sym")
-    rets = common.returns_of(ab)
-    same = [r for r in rets if U(r.value) == "self"]
-    ok = any(any(pol and "==" in t and "bra_ket_sym" in t for t, pol in conditions(r)) for r in same)
-    ctx.check("R06f", ab, ok, "same symmetry returns self", "add_bra_ket_sym(same) does not return self", key="abks same")
-    rebuild = [r for r in rets if isinstance(r.value, ast.Call) and "__class__" in U(r.value.func)]
-    ok = bool(rebuild) and all(("self.bra_ket_sym is S.Zero", True) in conditions(r) for r in rebuild)
-    ctx.check("R06f", ab, ok, "rebuild only from symmetry 0", "tensor rebuilt with a new bra-ket symmetry although one is set "
-              "(original index order is lost)", key="abks rebuild")
-    for r in rebuild:
-        a = [U(x) for x in r.value.args]
-        ctx.check("R06f", r, a == ["self.symbol", "self.upper", "self.lower", "bra_ket_sym"],
-                  "rebuild keeps name and index groups", f"rebuild arguments {a}", key="abks args")
-    ctx.check("R06f", ab, any(isinstance(n, ast.Raise) for n in walk_fn(ab)), "conflicting symmetry refused",
-              "conflicting symmetry no longer refused", key="abks raise")
-    # Obj._apply_tensor_braket_sym decision
-    ob = ctx.model.fn("expr_container:Obj._apply_tensor_braket_sym")
-    asg = [a for a in common.assigns_to(ob, "bra_ket_sym") if not (isinstance(a.value, ast.Constant) and a.value.value is None)]
-    ctx.floor("R06f", "symmetry decisions in Obj._apply_tensor_braket_sym", len(asg), 2)
-    res = Defs(ob).resolve
-    for a in asg:
-        conds = conditions(a, resolve=res)
-        v = U(a.value)
-        if v == "1":
-            need_in, need_not = "self.sym_tensors", "S.One"
-        elif v == "-1":
-            need_in, need_not = "self.antisym_tensors", "S.NegativeOne"
-        else:
-            ctx.bad("R06f", a, f"unexpected symmetry value {v}", key="obj sym value")
+def _compare_state(ctx, rule, fn, what, o, me, want, key, returns_self=True):
+    if o.kind != "return":
+        ctx.bad(rule, fn, f"{what}: raises {o.exc}", key=key)
+        return
+    got = ExprState.of(me)
+    d = ["state destroyed"] if got is None else want.diff(got, N_TERMS)
+    ctx.check(rule, fn, not d, f"{what}: state as the reference prescribes ({want.text()[:150]})",
+              f"{what}: {', '.join(d)} differ(s): got {got.text() if got else '-'}; expected {want.text()}", key=key)
+
+
+def _path_tag(o):
+    return "".join("1" if p else "0" for _, p in o.path) or "-"
+
+
+N_TERMS = 2
+
+
+def _canonical_state(sx, real, sym_tensors, antisym_tensors):
+    """An Expr state that satisfies the class invariant: the content carries the declared symmetry already."""
+    st = ExprState(sym("E0"), real, sym_tensors, antisym_tensors, None)
+    st.expr = sk.canonical_content(sx, st, N_TERMS)
+    return st
+
+
+def expr_machine(ctx):
+    """R06f (and the Expr level of R06e): Expr methods against the reference state machine."""
+    fv = sorted(_fv(ctx))
+    f_, v_ = fv[0], fv[1]
+    sx = sk.container_sx(ctx, "Expr state machine", n_terms=N_TERMS, hooks={"Expr.set_target_idx": _target_hook})
+    sets = [(), (f_,), (v_,), (f_, v_), ("x",), ("x", f_, v_)]
+    # --- make_real
+    fn = ctx.model.fn(f"{EC}:Expr.make_real")
+    for real, st_, anti in itertools.product((False, True), sets, ((), ("y",))):
+        if real and not set(fv) <= set(st_):
+            continue           # unreachable state: real expressions always declare fock and eri
+        start = _canonical_state(sx, real, st_, anti)
+        for o, me in sk.run_method(sx, fn, lambda: (start.obj(), {})):
+            want = start.copy()
+            Ref(ctx, sx, o, N_TERMS).make_real(want)
+            fresh = not real and set(fv) <= set(st_)
+            rule = "R06e" if fresh else "R06f"
+            what = f"make_real on real={real} sym_tensors={list(st_)} antisym_tensors={list(anti)}"
+            _compare_state(ctx, rule, fn, what, o, me, want, key=f"make_real {real} {st_} {anti} {_path_tag(o)}")
+            if o.kind == "return":
+                ctx.check(rule, fn, o.value is me, f"{what}: returns the expression",
+                          f"{what}: returns {show(_freeze(o.value))[:100]}", key=f"make_real returns {real} {st_} {anti} {_path_tag(o)}")
+    # --- _apply_tensor_braket_sym
+    fn = ctx.model.fn(f"{EC}:Expr._apply_tensor_braket_sym")
+    for real, st_, anti in ((False, ("x",), ("y",)), (True, (f_, v_), ()), (False, (), ())):
+        start = ExprState(sym("E"), real, st_, anti, None)
+        for o, me in sk.run_method(sx, fn, lambda: (start.obj(), {})):
+            want = start.copy()
+            Ref(ctx, sx, o, N_TERMS).apply(want)
+            _compare_state(ctx, "R06e", fn, f"_apply_tensor_braket_sym on sym_tensors={list(st_)} antisym_tensors={list(anti)}",
+                           o, me, want, key=f"apply {real} {st_} {anti} {_path_tag(o)}")
+    # --- rename_tensor
+    fn = ctx.model.fn(f"{EC}:Expr.rename_tensor")
+    for real, st_, anti in ((False, ("x",), ("y",)), (True, (f_, v_), ())):
+        start = ExprState(sym("E"), real, st_, anti, None)
+        for o, me in sk.run_method(sx, fn, lambda: (start.obj(), dict(current="a", new="b"))):
+            want = start.copy()
+            Ref(ctx, sx, o, N_TERMS).lift(want, "rename_tensor", dict(current="a", new="b"))
+            _compare_state(ctx, "R06e", fn, "rename_tensor('a', 'b')", o, me, want, key=f"rename {real} {_path_tag(o)}")
+            if o.kind == "return":
+                ctx.check("R06e", fn, o.value is me, "rename_tensor returns the expression",
+                          f"rename_tensor returns {show(_freeze(o.value))[:100]}", key=f"rename returns {real} {_path_tag(o)}")
+    for cur, new in ((1, "b"), ("a", None)):
+        start = ExprState(sym("E"), False, (), (), None)
+        res = sk.run_method(sx, fn, lambda: (start.obj(), dict(current=cur, new=new)))
+        ctx.check("R06e", fn, all(o.kind == "raise" for o, _ in res), "rename_tensor refuses names that are not strings",
+                  f"rename_tensor({cur!r}, {new!r}) is accepted", key=f"rename guard {cur!r} {new!r}")
+    # --- set_sym_tensors / set_antisym_tensors
+    for meth, field in (("set_sym_tensors", "sym"), ("set_antisym_tensors", "anti")):
+        fn = ctx.model.fn(f"{EC}:Expr.{meth}")
+        param = [a.arg for a in fn.args.args if a.arg != "self"][0]
+        for real, cur, names in itertools.product((False, True), sets, ([], ["x"], [f_], ["x", f_, v_], ["z", "x"], [f_, v_])):
+            if real and not set(fv) <= set(cur) and field == "sym":
+                continue
+            st_, anti = (cur, ()) if field == "sym" else ((f_, v_) if real else (), cur)
+            start = _canonical_state(sx, real, st_, anti)
+            for arg in (list(names), tuple(names)):
+                for o, me in sk.run_method(sx, fn, lambda: (start.obj(), {param: arg})):
+                    want = start.copy()
+                    ref = Ref(ctx, sx, o, N_TERMS)
+                    (ref.set_sym if field == "sym" else ref.set_anti)(want, names)
+                    _compare_state(ctx, "R06f", fn, f"{meth}({names}) on real={real} sym_tensors={list(st_)} antisym_tensors="
+                                   f"{list(anti)}", o, me, want, key=f"{meth} {real} {cur} {names} {type(arg).__name__} {_path_tag(o)}")
+        start = ExprState(sym("E"), False, (), (), None)
+        res = sk.run_method(sx, fn, lambda: (start.obj(), {param: ["x", 1]}))
+        ctx.check("R06f", fn, all(o.kind == "raise" for o, _ in res) and all(ExprState.of(me).same(start, N_TERMS) for _, me in res),
+                  f"{meth} refuses names that are not strings", f"{meth}(['x', 1]) is accepted or changes the state",
+                  key=f"{meth} guard")
+    # --- __init__
+    fn = ctx.model.fn(f"{EC}:Expr.__init__")
+    for real, st_, anti, tgt, wrapped in itertools.product((False, True), (None, [], ["x"], [f_], ["x", f_, v_]),
+                                                           (None, ["y"]), (None, ["i", "a"]), (False, True)):
+        if wrapped and (tgt is not None or anti is not None):
             continue
-        ok_in = any(pol and t.endswith(f" in {need_in}") and ".name" in t for t, pol in conds)
-        ok_not = any((not pol) and t.endswith(f".bra_ket_sym is {need_not}") for t, pol in conds)
-        ok_cls = any(pol and t.startswith("isinstance(") and "AntiSymmetricTensor" in t for t, pol in conds)
-        ctx.check("R06f", a, ok_in and ok_not and ok_cls,
-                  f"symmetry {v} only for declared names, antisymmetric-tensor instances, not yet set",
-                  f"symmetry {v} assigned without (name declared in {need_in}) / (not already {need_not}) / "
-                  "(AntiSymmetricTensor instance)", key=f"obj sym {v}")
+
+        def make():
+            e = sym("E")
+            if wrapped:
+                e = Obj(None, "container", sympy=sym("E"))
+                e.attrs["_classes"] = ("Container", "Expr")
+            me = Obj(f"{EC}:Expr", "self")
+            return me, dict(e=e, real=real, sym_tensors=None if st_ is None else list(st_),
+                            antisym_tensors=None if anti is None else list(anti), target_idx=tgt)
+        for o, me in sk.run_method(sx, fn, make):
+            want = Ref(ctx, sx, o, N_TERMS).init(sym("E"), real, st_, anti, tgt)
+            _compare_state(ctx, "R06f", fn, f"Expr(e, real={real}, sym_tensors={st_}, antisym_tensors={anti}"
+                           f"{', target_idx=..' if tgt is not None else ''}{', e wrapped' if wrapped else ''})", o, me, want,
+                           key=f"init {real} {st_} {anti} {tgt is not None} {wrapped} {_path_tag(o)}")
+
+
+# ------------------------------------------------------------------ Obj level
+
+def _classes_of(sx, kind):
+    return (kind,) + tuple(sorted(sx._bases(f"{SO}:{kind}")))
+
+
+def _tensor(sx, kind, name, bks=0, label="base"):
+    """Abstract sympy tensor object of class ``kind``."""
+    o = Obj(None, label)
+    mod = sx.model.module(SO)
+    o.attrs.update(name=name, symbol=sym("SYMBOL"), _classes=_classes_of(sx, kind) if kind in mod.classes else (kind,))
+    if "AntiSymmetricTensor" in o.attrs["_classes"]:
+        o.attrs.update(upper=sym("UPPER"), lower=sym("LOWER"), bra_ket_sym=bks)
+        o.attrs["add_bra_ket_sym"] = lambda sx_, a, kw: T("add_bra_ket_sym", _freeze(o), tuple(a), tuple(sorted(kw.items())))
+    elif kind == "NonSymmetricTensor":
+        o.attrs.update(indices=sym("INDICES"))
+    if kind in mod.classes:
+        o.attrs["__class__"] = lambda sx_, a, kw: sx_.call_value(ClassRef(mod, kind), list(a), dict(kw), None)
+    return o
+
+
+def _wrap_pow(base, expo):
+    if expo == 1 and not isinstance(expo, T):
+        return base
+    p = Obj(None, "pow")
+    p.attrs.update(args=(base, expo), _classes=("Pow",), is_number=False)
+    return p
+
+
+def _container_obj(owner, content):
+    return Obj(f"{EC}:Obj", "self", _expr=owner, _term=Obj(None, "term"), _pos=0, _sympy=content, sympy=content)
+
+
+def _ctor(cls_name, name_, **kw):
+    """A constructor call as the evaluator records it (arguments bound by parameter name)."""
+    return T("call", cls_name, (), (("name", name_),) + tuple(kw.items()))
+
+
+def _added_sym(core, base):
+    """The symmetry b of a recorded ``base.add_bra_ket_sym(b)``."""
+    if not (isinstance(core, T) and core.op == "add_bra_ket_sym" and core.args[0] == base):
+        return None
+    pos, kw = core.args[1], dict(core.args[2])
+    if len(pos) == 1 and not kw:
+        return pos[0]
+    if not pos and set(kw) == {"bra_ket_sym"}:
+        return kw["bra_ket_sym"]
+    return None
+
+
+def _split_pow(v):
+    v = _freeze(v) if not isinstance(v, Obj) else v
+    if isinstance(v, T) and v.op == "pow":
+        return v.args[0], v.args[1]
+    return v, 1
+
+
+KINDS = ("AntiSymmetricTensor", "Amplitude", "SymmetricTensor", "NonSymmetricTensor", "KroneckerDelta")
+
+
+def _independent(sx, fn, state, cur, make):
+    """Premise of the recorded calls (skeleton.DEPENDS), verified by differential evaluation: the raw value of the Obj
+    method is the same under assumptions that differ only in what it is declared not to depend on."""
+    method = fn.name
+    deps = sk.DEPENDS.get(method, sk.ALL_DEPS)
+    alt = ExprState(state.expr, state.real if "real" in deps else not state.real,
+                    state.sym if "sym_tensors" in deps else set(state.sym) ^ {"x", "q"},
+                    state.anti if "antisym_tensors" in deps else set(state.anti) ^ {"y", "r"}, ["k"])
+    res = []
+    for st in (state, alt):
+        cur["state"] = st
+        res.append([(o.kind, repr(_freeze(o.value)) if o.kind == "return" else o.exc) for o, _ in sk.run_method(sx, fn, make)])
+    cur["state"] = state
+    if res[0] != res[1]:
+        raise AnalysisError(f"R06e: the raw value of Obj.{method} depends on assumptions other than {list(deps)}: "
+                            f"{res[0]} vs {res[1]} (premise of the evaluated skeleton)")
+
+
+def obj_level(ctx):
+    sx = sk.container_sx(ctx, "Obj level")
+    tn = sk.tensor_names_obj(ctx.model)
+    t = tn.attrs["gs_amplitude"]
+    expos = (sym("n"), 1)
+    # ---- _apply_tensor_braket_sym: decision table
+    fn = ctx.model.fn(f"{EC}:Obj._apply_tensor_braket_sym")
+    for kind, name, bks, expo, rs in itertools.product(KINDS, ("x", "y", "z"), (0, 1, -1), expos, (True, False)):
+        state = ExprState(sym("E"), False, ("x",), ("y",), None)
+        cur = {"state": state}
+        is_ast = kind in TENSOR_CLASSES
+        if not is_ast and bks != 0:
+            continue
+        if (name == "x" and bks == -1) or (name == "y" and bks == 1):
+            continue        # conflicting declaration: add_bra_ket_sym refuses it (R06f add_bra_ket_sym table)
+        made = {}
+
+        def make():
+            base = _tensor(sx, kind, name, bks)
+            content = _wrap_pow(base, expo)
+            made["base"], made["content"] = base, content
+            return _container_obj(cur["state"].obj("expr"), content), dict(return_sympy=rs)
+        if rs:
+            _independent(sx, fn, state, cur, make)
+        for o, me in sk.run_method(sx, fn, make):
+            label = f"{kind} {name!r} (declared: sym x, antisym y) bra_ket_sym={bks} exponent={show(expo)} {'raw' if rs else 'wrapped'}"
+            if o.kind != "return":
+                ctx.bad("R06f", fn, f"Obj._apply_tensor_braket_sym on {label}: raises {o.exc}", key=f"obj sym {label}")
+                continue
+            want_sym = None
+            if is_ast and name == "x" and bks != 1:
+                want_sym = 1
+            elif is_ast and name == "y" and bks != -1:
+                want_sym = -1
+            v = o.value
+            if not rs:
+                if not (isinstance(v, T) and v.op == "call" and v.args[0] == "Expr"):
+                    ctx.bad("R06e", fn, f"{label}: result not wrapped in Expr: {show(_freeze(v))[:200]}", key=f"obj sym wrap {label}")
+                    continue
+                okw, why = sk.wrapper_ok(v, args_of(v).get("e"), state)
+                ctx.check("R06e", fn, okw, f"{label}: wrapper carries the assumptions", f"{label}: {why}", key=f"obj sym wrap {label}")
+                v = args_of(v).get("e")
+            core, e = _split_pow(v)
+            untouched = _freeze(v) == _freeze(made["content"])
+            if want_sym is None:
+                ctx.check("R06f", fn, untouched, f"{label}: left untouched",
+                          f"{label}: object is changed to {show(_freeze(v))[:200]} although no (new) symmetry is declared for it",
+                          key=f"obj sym {label}")
+                continue
+            got_sym = _added_sym(core, _freeze(made["base"]))
+            ctx.check("R06f", fn, got_sym == want_sym, f"{label}: symmetry {want_sym:+d} added to the base",
+                      f"{label}: expected the base with bra-ket symmetry {want_sym:+d} added, got "
+                      f"{'the untouched object' if untouched else show(_freeze(v))[:200]}", key=f"obj sym {label}")
+            if got_sym == want_sym:
+                ctx.check("R06e", fn, e == expo, f"{label}: rebuilt value raised to the object's exponent",
+                          f"{label}: rebuilt value is raised to {show(e)}, the object's exponent is {show(expo)} (exponent lost)",
+                          key=f"obj sym exponent {label}")
+    # ---- make_real: value table
+    fn = ctx.model.fn(f"{EC}:Obj.make_real")
+    names = [f"{t}1cc", f"{t}2cc", f"{t}cc", f"{t}3", t, f"{t}1c", "f", "V", "X", f"{t}x", "cc"]
+    for kind, name, bks, expo, rs in itertools.product(("Amplitude", "AntiSymmetricTensor", "NonSymmetricTensor", "KroneckerDelta"),
+                                                       names, (0, 1), expos, (True, False)):
+        if kind != "Amplitude" and (bks or name != "f"):
+            continue        # names of t-amplitudes belong to Amplitude objects
+        state = ExprState(sym("E"), False, ("x",), (), None)
+        cur = {"state": state}
+        made = {}
+
+        def make():
+            base = _tensor(sx, kind, name, bks)
+            content = _wrap_pow(base, expo)
+            made["base"], made["content"] = base, content
+            return _container_obj(cur["state"].obj("expr"), content), dict(return_sympy=rs)
+        m = re.fullmatch(re.escape(t) + r"(\d*)(c+)", name)
+        new = (t + m.group(1)) if (m and kind != "KroneckerDelta") else None
+        if rs:
+            _independent(sx, fn, state, cur, make)
+        for o, me in sk.run_method(sx, fn, make):
+            label = f"{kind} {name!r} bra_ket_sym={bks} exponent={show(expo)} {'raw' if rs else 'wrapped'}"
+            if o.kind != "return":
+                ctx.bad("R06e", fn, f"Obj.make_real on {label}: raises {o.exc}", key=f"obj real {label}")
+                continue
+            v = o.value
+            if not rs:
+                if not (isinstance(v, T) and v.op == "call" and v.args[0] == "Expr"):
+                    ctx.bad("R06e", fn, f"{label}: result not wrapped in Expr: {show(_freeze(v))[:200]}", key=f"obj real wrap {label}")
+                    continue
+                okw, why = sk.wrapper_ok(v, args_of(v).get("e"), state, real=True)
+                ctx.check("R06e", fn, okw, f"{label}: wrapper carries the assumptions and real=True", f"{label}: {why}",
+                          key=f"obj real wrap {label}")
+                v = args_of(v).get("e")
+            if new is None:
+                ctx.check("R06e", fn, _freeze(v) == _freeze(made["content"]), f"{label}: left untouched",
+                          f"{label}: object is changed to {show(_freeze(v))[:200]} although it is not a complex conjugate t-amplitude",
+                          key=f"obj real {label}")
+                continue
+            core, e = _split_pow(v)
+            want_core = _ctor("Amplitude", name_=new, upper=sym("UPPER"), lower=sym("LOWER"), bra_ket_sym=bks)
+            ctx.check("R06e", fn, core == want_core, f"{label}: renamed to {new!r}, same class, index groups and symmetry",
+                      f"{label}: expected {show(want_core)} (** exponent), got {show(_freeze(v))[:300]}", key=f"obj real {label}")
+            if core == want_core:
+                ctx.check("R06e", fn, e == expo, f"{label}: rebuilt value raised to the object's exponent",
+                          f"{label}: rebuilt value is raised to {show(e)}, the object's exponent is {show(expo)} (exponent lost)",
+                          key=f"obj real exponent {label}")
+    # ---- rename_tensor: value table
+    fn = ctx.model.fn(f"{EC}:Obj.rename_tensor")
+    for kind, name, bks, expo, rs in itertools.product(KINDS, ("a", "c"), (0, -1), expos, (True, False)):
+        if kind not in TENSOR_CLASSES and bks:
+            continue
+        state = ExprState(sym("E"), True, ("V", "f"), ("y",), None)
+        cur = {"state": state}
+        made = {}
+
+        def make():
+            base = _tensor(sx, kind, name, bks)
+            content = _wrap_pow(base, expo)
+            made["base"], made["content"] = base, content
+            return _container_obj(cur["state"].obj("expr"), content), dict(current="a", new="b", return_sympy=rs)
+        if rs:
+            _independent(sx, fn, state, cur, make)
+        for o, me in sk.run_method(sx, fn, make):
+            label = f"{kind} {name!r} -> rename('a','b') bra_ket_sym={bks} exponent={show(expo)} {'raw' if rs else 'wrapped'}"
+            if o.kind != "return":
+                ctx.bad("R06e", fn, f"Obj.rename_tensor on {label}: raises {o.exc}", key=f"obj rename {label}")
+                continue
+            v = o.value
+            if not rs:
+                if not (isinstance(v, T) and v.op == "call" and v.args[0] == "Expr"):
+                    ctx.bad("R06e", fn, f"{label}: result not wrapped in Expr: {show(_freeze(v))[:200]}", key=f"obj rename wrap {label}")
+                    continue
+                okw, why = sk.wrapper_ok(v, args_of(v).get("e"), state)
+                ctx.check("R06e", fn, okw, f"{label}: wrapper carries the assumptions", f"{label}: {why}", key=f"obj rename wrap {label}")
+                v = args_of(v).get("e")
+            if name != "a" or kind == "KroneckerDelta":
+                ctx.check("R06e", fn, _freeze(v) == _freeze(made["content"]), f"{label}: left untouched",
+                          f"{label}: object is changed to {show(_freeze(v))[:200]} although its name is not the one to rename",
+                          key=f"obj rename {label}")
+                continue
+            core, e = _split_pow(v)
+            if kind == "NonSymmetricTensor":
+                want_core = _ctor(kind, name_="b", indices=sym("INDICES"))
+            else:
+                want_core = _ctor(kind, name_="b", upper=sym("UPPER"), lower=sym("LOWER"), bra_ket_sym=bks)
+            ctx.check("R06e", fn, core == want_core, f"{label}: same class rebuilt with the new name, same indices and symmetry",
+                      f"{label}: expected {show(want_core)} (** exponent), got {show(_freeze(v))[:300]}", key=f"obj rename {label}")
+            if core == want_core:
+                ctx.check("R06e", fn, e == expo, f"{label}: rebuilt value raised to the object's exponent",
+                          f"{label}: rebuilt value is raised to {show(e)}, the object's exponent is {show(expo)} (exponent lost)",
+                          key=f"obj rename exponent {label}")
+
+
+def add_bra_ket_sym(ctx):
+    """R06f: AntiSymmetricTensor.add_bra_ket_sym(b): same symmetry -> the tensor itself; none set -> the same class
+    rebuilt from name and index groups with b; a different one already set -> refused."""
+    sx = _tensor_sx(ctx, "add_bra_ket_sym")
+    for cname in TENSOR_CLASSES:
+        fn = _resolve(sx, cname, "add_bra_ket_sym")
+        for cur, req in itertools.product((0, 1, -1), repeat=2):
+            def make():
+                me = _tensor(sx, cname, "X", cur, label="self")
+                me.__dict__["cls"] = f"{SO}:{cname}"
+                return dict(self=me, bra_ket_sym=req)
+            outs = sx.run(fn, make)
+            label = f"{cname} with bra_ket_sym={cur}: add_bra_ket_sym({req})"
+            if len(outs) != 1:
+                ctx.bad("R06f", fn, f"{label}: {outs}", key=f"abks {cname} {cur} {req}")
+                continue
+            o = outs[0]
+            if cur == req:
+                ok, want = o.kind == "return" and isinstance(o.value, Obj) and o.value.name == "self", "the tensor itself"
+            elif cur == 0:
+                w = _ctor(cname, name_=sym("SYMBOL"), upper=sym("UPPER"), lower=sym("LOWER"), bra_ket_sym=req)
+                ok, want = o.kind == "return" and _freeze(o.value) == w, f"rebuilt as {show(w)}"
+            else:
+                ok, want = o.kind == "raise", "refused (the original index order is lost)"
+            ctx.check("R06f", fn, ok, f"{label}: {want}",
+                      f"{label}: gives {o.kind} {show(_freeze(o.value)) if o.kind == 'return' else o.exc}, expected {want}",
+                      key=f"abks {cname} {cur} {req}")
+
+
+def r06e(ctx):
+    for m, args, real_after in (("make_real", {}, True), ("_apply_tensor_braket_sym", {}, None),
+                                ("rename_tensor", dict(current="a", new="b"), None)):
+        sk.sx_term_level(ctx, "R06e", m, args, real_after)
+        sk.sx_polynom_level(ctx, "R06e", m, args, real_after)
+
+
+def _floors(ctx):
+    for rule, minimum in (("R06a", 4), ("R06c", 40), ("R06d", 100), ("R06e", 300), ("R06f", 400)):
+        if ctx.want(rule) and (ctx.only_rule is None or ctx.only_rule == rule):
+            ctx.floor(rule, "evaluated scenarios", ctx.per_rule.get(rule, {}).get("obligations", 0), minimum)
 
 
 def run(ctx):
+    _run(ctx)
+    _floors(ctx)
+
+
+def _run(ctx):
     if ctx.want("R06a"):
         r06a(ctx)
+    if ctx.want("R06b"):
+        r06b(ctx)
     if ctx.want("R06c"):
         r06c(ctx)
     if ctx.want("R06d"):
         r06d(ctx)
     if ctx.want("R06e"):
-        for m in ("make_real", "_apply_tensor_braket_sym", "rename_tensor"):
-            skeleton(ctx, "R06e", m)
+        r06e(ctx)
+    if ctx.want("R06e") or ctx.want("R06f"):
+        expr_machine(ctx)
+        obj_level(ctx)
     if ctx.want("R06f"):
-        r06f(ctx)
+        add_bra_ket_sym(ctx)
